@@ -491,6 +491,9 @@ Definition step (s : ep) (o : op) : ep :=
                else (send_contact_header s) <| conhead_this := Some (contact_flags s) |> in
       set_state ST_CONTACT s
   | OSend data =>
+    (* _add_queue_item refuses new work once terminating (RuntimeError to the caller) *)
+    if in_term s then emit (EExc EX_RUNTIME) s
+    else
     let id := next_id s in
     let s := s <| next_id := id + 1 |> <| pend_start := pend_start s ++ [(id, data)] |>
                <| tx_map := dict_set id 0 (tx_map s) |> in
